@@ -925,6 +925,17 @@ def _judge_story(pre, post, m, raised, mos_warns, D, v):
             if unnamed_pre == unnamed_post and anchor:
                 pass
         return
+    # stories the message does not name and the running-order metadata keep their relative order - as ONE
+    # sequence (a story operation that is right about the story IDs may still carry the others past the metadata)
+    moved = set(x.named) | {i for i in carried_ids if i is not None}
+    def unnamed(a):
+        return [('story', sid(c)) if c.tag == 'story' else ('meta', canon(c)) for c in a.entries
+                if c.tag != 'story' or sid(c) not in moved]
+    if unnamed(pre) != unnamed(post):
+        D.append(Dev('C03', 'unnamed-stories-and-metadata-changed-relative-order',
+                     {'kind': kind, 'named': sorted(str(i) for i in moved),
+                      'pre': [t[1] if t[0] == 'story' else '<%s>' % t[1][0] for t in unnamed(pre)],
+                      'post': [t[1] if t[0] == 'story' else '<%s>' % t[1][0] for t in unnamed(post)]}))
     # same IDs: compare content per position
     for tok, c in zip(ok_alt, post.story_canons):
         if tok[0] == 'pre':
@@ -1113,8 +1124,10 @@ def _judge_metadata(pre, post, m, raised, mos_warns, D, v):
     v.sig = (kind, tuple(sorted({k[0] for k in keys})),
              tuple(sorted('replace' if k in pre_keys else 'add' for k in keys)),
              'raise' if raised else 'ret')
-    if len(set(keys)) != len(keys) or len(set(pre_keys)) != len(pre_keys):
-        v.in_claim = False       # ambiguous identities: outside the claim
+    blank_schema = any(c.tag == 'mosExternalMetadata' and c.find('mosSchema') is not None and not (c.find('mosSchema').text or '').strip()
+                       for c in list(carried) + list(pre.meta))
+    if len(set(keys)) != len(keys) or len(set(pre_keys)) != len(pre_keys) or blank_schema:
+        v.in_claim = False       # ambiguous identities (also: a BLANK mosSchema - is it "no schema"?): outside the claim
         v.status = 'ooc'
         _generic_c03(pre, post, m, D, allow_meta=True)
         return
